@@ -9,7 +9,7 @@ import (
 
 var extremeInts = []int64{0, 1, -1, 2, 127, 128, 255, 256, 65535, 1 << 31, 1<<31 - 1, -(1 << 31), 1 << 53, 1<<53 + 1, math.MaxInt64, math.MinInt64, math.MaxInt64 - 1, 42}
 var extremeFloats = []float64{0, math.Copysign(0, -1), 0.5, 1, -1, 1.5, 3.4028234663852886e38, 9.223372036854775807e18, -9.223372036854775808e18, 9.223372036854777e18, 1.8446744073709552e19, math.MaxFloat64, math.SmallestNonzeroFloat64, math.Inf(1), math.Inf(-1), math.NaN(), 16777216, 16777217}
-var hostileStrings = []string{"", "0", "1", "-1", "+1", " 1", "1 ", "1.0", "1e3", "0x10", "1_000", "9223372036854775807", "9223372036854775808", "-9223372036854775808", "-9223372036854775809", "NaN", "nan", "Inf", "-Inf", "+Inf", "infinity", "1e400", "true", "TRUE", "yes", "Yes", "on", "off", "enable", "disabled", "y", "n", "abc", "5m30s", "1kB", "5 minutes", "1.5s", "100%", "3chars", "(", "[a", "a{2,1}", "\xff\xfe", "é", "日本語", "null", "{}", "[]"}
+var hostileStrings = []string{"", "0", "1", "-1", "+1", " 1", "1 ", "1.0", "1e3", "0x10", "1_000", "9223372036854775807", "9223372036854775808", "-9223372036854775808", "-9223372036854775809", "NaN", "nan", "Inf", "-Inf", "+Inf", "infinity", "1e400", "true", "TRUE", "yes", "Yes", "on", "off", "enable", "disabled", "y", "n", "abc", "5m30s", "1kB", "5 minutes", "1.5s", "100%", "3chars", "(", "[a", "a{2,1}", "\xff\xfe", "é", "日本語", "null", "{}", "[]", "-", "+", ".", "e", " ", " - ", "\t", "-.", "s", "kB", "1e", "--1", "1m-1s"}
 
 // Scalar draws a scalar of the decoder domain (what cbor/json/yaml decoding into `any` can produce) plus every Go
 // integer and float width.
